@@ -317,11 +317,33 @@ func init() {
 					}
 					bad, undec := "", ""
 					for n := 1; n <= 4 && bad == "" && undec == ""; n++ {
-						nf := &numFold{c: c, leaf: func(v ssa.Value) (float64, bool) {
-							if isLenLeaf(v) {
-								return float64(n), true
+						var nf *numFold
+						nf = &numFold{c: c, leaf: func(v ssa.Value) (float64, bool) {
+							if !isLenLeaf(v) {
+								return 0, false
 							}
-							return 0, false
+							// the length of a re-slice of the parts (`leading := numbers[:len(numbers)-1]`) is its high bound
+							// minus its low bound, themselves folded; the length of anything else is the number of parts
+							a, _ := lenArg(v)
+							if sl, ok := a.(*ssa.Slice); ok && isIntElemSlice(sl.X.Type()) && sl.Max == nil {
+								lo, hi := 0.0, float64(n)
+								if sl.Low != nil {
+									x, ok := nf.eval(sl.Low, 1)
+									if !ok {
+										return 0, false
+									}
+									lo = x
+								}
+								if sl.High != nil {
+									x, ok := nf.eval(sl.High, 1)
+									if !ok {
+										return 0, false
+									}
+									hi = x
+								}
+								return hi - lo, true
+							}
+							return float64(n), true
 						}}
 						lim, ok := nf.eval(l, 0)
 						if !ok {
